@@ -661,7 +661,9 @@ func (res *PropResult) writeEvidence(verif, prop string, cfg *PropCfg, tier stri
 		"heap well-formedness at entry: references held in parameters, slices, sync.Maps and fields of objects that exist at entry were allocated before the call",
 		"go statements have no effect on the spawner (a spawned closure is only recorded in the ghost set spawned); a closure value is identified by its function and the values of its singly-assigned captured variables",
 		"higher-order library helpers (retry / backoff helpers, goset.Set.Range, sync.Map.Range) are sequentialised stubs: the closure's non-each ensures are assumed across all its calls (they must be reflexive-transitive two-state relations), each_* ensures for every element when the last call returned true",
-		"interface contracts are assumed for every implementation, except where a refines obligation (kind refines in per_obligation) proves them from the implementation's contract under a stated coupling")
+		"interface contracts are assumed for every implementation, except where a refines obligation (kind refines in per_obligation) proves them from the implementation's contract under a stated coupling",
+		"ghost code (`ghost-set G = E` on a proved function) runs in the model only, when that function returns; a contract marked `inline` is proved for the function and its preconditions are call-site obligations, callers see the body",
+		"a failing input is reported only for functions listed under replayable_functions and only after the real function, run on the solver's candidate through go test -overlay, returned values on which one of its own ensures clauses is provably false; all other violations carry no input")
 	for _, a := range res.Abstract {
 		assumptions = append(assumptions, "abstraction: "+a)
 	}
